@@ -218,7 +218,11 @@ def gen_lib_case(rng):
             rng.shuffle(es)
             files[pref] = manifest_bytes(r['target'], es[:rng.randrange(1, len(es) + 1)])
         elif state == 'garbage':
-            files[pref] = rng.choice([b'{', b'not json', b'', b'[1,2]', b'null', b'"x"', manifest_bytes(r['target'], own)[:-9], b'\xff\xfe'])
+            full = manifest_bytes(r['target'], own + [('user1.txt', b'x')])
+            files[pref] = rng.choice([b'{', b'not json', b'', b'[1,2]', b'null', b'"x"', manifest_bytes(r['target'], own)[:-9], b'\xff\xfe',
+                                      # a complete, well-formed manifest document followed by more bytes (an overwrite in place that
+                                      # left the tail of a longer old file, a concatenation): as a whole it is NOT valid JSON
+                                      full + b'}', full + b'\n{}', full + b' x', full + b'\n    }\n  ]\n}\n', full + full])
         elif state == 'foreign':
             files[pref] = manifest_bytes(rng.choice([t for t in TARGETS if t != r['target']] + ['junk', '']), own + [('user1.txt', b'x')])
         elif state == 'badversion':
@@ -950,6 +954,27 @@ def hist_repeat_rollback(st, cw, sb, rng, hs):
     if st == 3: drift(); return {'kind': 'rollback', 'to': hs.rr_to, 'tags': ['script:same_rollback_again', 'user:drift']}
     if st == 4: drift(); return {'kind': 'rollback', 'to': 1 - hs.rr_to, 'tags': ['script:other_rollback', 'user:drift']}
     if st == 5: drift(); return {'kind': 'rollback', 'to': 1 - hs.rr_to, 'tags': ['script:same_rollback_again', 'user:drift']}
+    return None
+
+def script_backported_edit(st, cw, sb, rng):
+    """deploy; every module changes; for some outputs the user has ALREADY put the new bytes on disk (edited the deployed
+    copy and back-ported it, or an earlier apply was interrupted after writing it), so the plan does not touch them
+    although the manifests still record their old hashes; deploy: the rewritten manifests must carry true hashes and
+    the repeated deploy is a no-op"""
+    if st == 0:
+        return ['script:all'], 'cli_json', True, None
+    if st in (1, 2):
+        for m in cw.modules:
+            for fn in sorted(m['files']):
+                if fn == 'SKILL.md': m['files'][fn] = skill_md(m['id'].split(':')[1], 'rev%d' % st)
+                elif m['type'] == 'command': m['files'][fn] = command_md('do rev%d' % st)
+                else: m['files'][fn] = b'revision %d of %s\n' % (st, fn.encode())
+        cw.write()
+        D = cw.desired(None); tags = ['cfg:content_all']
+        for d in rng.sample(D, rng.randrange(1, max(2, len(D)))) if D else []:
+            if os.path.exists(d['path']) and not os.path.islink(d['path']):
+                world.write(d['path'], d['bytes']); tags.append('user:backport')
+        return tags, rng.choice(CONFIRMED_ENTRIES), False, None
     return None
 
 def script_case_rename(st, cw, sb, rng):
